@@ -270,7 +270,7 @@ func WaitLoop(c *core.Ctx, rule, key string, g *cfgq.Graph, body *ast.BlockStmt,
 		return true
 	})
 	for o := range cands {
-		valid := true
+		valid, followed := true, true
 		core.InspectAll(body, func(n ast.Node) bool {
 			var rhs ast.Expr
 			var at ast.Node
@@ -279,7 +279,7 @@ func WaitLoop(c *core.Ctx, rule, key string, g *cfgq.Graph, body *ast.BlockStmt,
 				if as, r := AssignsTo(info, x, o); as != nil {
 					rhs, at = r, as
 					if r == nil {
-						valid = false
+						valid, followed = false, false
 					}
 				}
 			case *ast.ValueSpec:
@@ -290,7 +290,7 @@ func WaitLoop(c *core.Ctx, rule, key string, g *cfgq.Graph, body *ast.BlockStmt,
 				}
 			case *ast.UnaryExpr:
 				if x.Op == token.AND && core.ObjOf(info, x.X) == o {
-					valid = false
+					valid, followed = false, false
 				}
 			}
 			if at == nil || rhs == nil {
@@ -298,7 +298,7 @@ func WaitLoop(c *core.Ctx, rule, key string, g *cfgq.Graph, body *ast.BlockStmt,
 			}
 			tv, ok := info.Types[rhs]
 			if !ok || tv.Value == nil {
-				valid = false
+				valid, followed = false, false
 				return true
 			}
 			if tv.Value.String() != "true" {
@@ -312,8 +312,8 @@ func WaitLoop(c *core.Ctx, rule, key string, g *cfgq.Graph, body *ast.BlockStmt,
 		})
 		if valid {
 			flags[o] = true
-		} else {
-			opaque = true
+		} else if !followed {
+			opaque = true // assigned a computed value / address taken: its truth says nothing we can follow
 		}
 	}
 	flagTrue := func(b *cfg.Block, s int) bool {
